@@ -467,6 +467,11 @@ pub fn purpose_of(p: &(i16, RPurpose)) -> raw::LayerPurpose {
 }
 /// Materialise the model. Every call builds fresh hash maps (fresh per-map hash keys).
 pub fn build(m: &RLib) -> Built {
+    build_named(m, false)
+}
+/// `own_view_names`: layout and abstract views of some cells carry names of their own (a view's name
+/// is a separate field; only conversions that do not go through names of views should be given these)
+pub fn build_named(m: &RLib, own_view_names: bool) -> Built {
     let mut layers = raw::Layers::default();
     let mut keys = vec![];
     for l in &m.layers {
@@ -485,7 +490,8 @@ pub fn build(m: &RLib) -> Built {
     for c in &m.cells {
         let mut cell = raw::Cell::new(c.name.clone());
         if c.has_layout {
-            let mut layout = raw::Layout { name: c.name.clone(), ..Default::default() };
+            let lname = if own_view_names && c.name.len() + c.shapes.len() % 2 == 1 { format!("{}_layout", c.name) } else { c.name.clone() };
+            let mut layout = raw::Layout { name: lname, ..Default::default() };
             for s in &c.shapes {
                 layout.elems.push(raw::Element { net: s.net.clone(), layer: keys[s.layer], purpose: purpose_of(&m.layers[s.layer].purposes[s.purpose]), inner: s.geom.to_raw() });
             }
@@ -499,7 +505,8 @@ pub fn build(m: &RLib) -> Built {
             cell.layout = Some(layout);
         }
         if let Some(a) = &c.abs {
-            let mut abs = raw::Abstract::new(c.name.clone(), raw::Polygon { points: a.outline.iter().map(|p| raw::Point::new(p.0 as isize, p.1 as isize)).collect() });
+            let aname = if own_view_names && c.shapes.len() % 2 == 0 { format!("{}_abstract", c.name) } else { c.name.clone() };
+            let mut abs = raw::Abstract::new(aname, raw::Polygon { points: a.outline.iter().map(|p| raw::Point::new(p.0 as isize, p.1 as isize)).collect() });
             for p in &a.ports {
                 let mut port = raw::AbstractPort::new(p.net.clone());
                 for (l, shapes) in &p.shapes {
